@@ -605,7 +605,8 @@ def part_exhaustive(chk, drv, runner):
         # length 4 over a reduced alphabet (keys 1..6 for insert/remove, two probes for find)
         alpha = [a for a in alpha if not (a[0] in "fl" and a[2] not in "25")]
     starts = {
-        3: ["L[]", "L[2=20,4=40]", "L[1=10,3=30,5=50]", "I(L[1=10,2=20,3=30]L[4=40,5=50])", "I(I(L[1=10]L[2=20,3=30])I(L[5=50]))"],
+        3: ["L[]", "L[2=20,4=40]", "L[1=10,3=30,5=50]", "I(L[1=10,2=20,3=30]L[4=40,5=50])", "I(I(L[1=10]L[2=20,3=30])I(L[5=50]))",
+            "I(I(I(L[-3=-30,-2=-20]))I(I(L[0=0]L[2=20,4=40,5=50])))"],
         4: ["L[]", "L[1=10,2=20,3=30,4=40]", "I(L[1=10,2=20,3=30,4=40]L[5=50])"],
         5: ["L[]", "L[1=10,2=20,3=30,4=40,5=50]", "I(L[2=20]L[3=30]L[4=40]L[5=50,6=60])"],
     }
